@@ -1,4 +1,5 @@
 (* Extraction of the executable model. ExtrOcamlBasic only; N/Z/positive/nat stay inductive. *)
 From Coq Require Import Extraction ExtrOcamlBasic.
-From Mos Require Import Base.Prelude Net.Fallback.
-Extraction "model.ml" fb_run.
+From Mos Require Import Base.Prelude Codec.Name Codec.Msg Codec.Spec Net.Fallback.
+Extraction "model.ml" fb_run
+  unpack_msg pack_msg msg_len view scan to_lower_name to_readable parse_readable unpack_name spec_pack spec_packsize.
